@@ -10,6 +10,9 @@ CONSTANTS
  FixVaArg = FALSE
  FixVaArgLd = FALSE
  FixRetRax = FALSE
+ FixRetLoad = FALSE
+ FixPacked = FALSE
+ FixZero = FALSE
  Waived = {}
  MaxLen = 1
  RetSel = {}
